@@ -32,9 +32,12 @@ m = {
     },
     "engines": [
         {"name": "lean4-proof+trace-correspondence", "path": "/verif/lean", "serves_properties": sorted(PROPS),
-         "kind_free_text": "Lean 4 model (Model/*.lean) + monitors (Monitor/*.lean) + property theorems (Props/*.lean); "
-                           "wiring regenerated from /repo/src by /verif/extract; real traces from /verif/harness "
-                           "(controlled executor on real hannibal) are accepted by the model and judged by the monitors via hdriver"},
+         "kind_free_text": "Lean 4 models (Model/Actor.lean: one actor; Model/Sys.lean: systems of actors with parent -> child "
+                           "edges; Model/Registry.lean; Model/Broker.lean; Model/Spawn.lean; Model/Types.lean) + monitors "
+                           "(Monitor/*.lean) + property theorems (Props/*.lean, index Props/All.lean); wiring regenerated from "
+                           "/repo/src by /verif/extract; real traces from /verif/harness (controlled executor on real hannibal, "
+                           "one process per case, random / PCT / exhaustive schedules) are accepted by the models and judged by "
+                           "the monitors via hdriver (modes accept, sys16, reg08, brk09, spawn18, types19)"},
     ],
     "checks": checks,
     "not_applicable": NOT_APPLICABLE,
